@@ -2,7 +2,7 @@ from lanes import *  # noqa
 
 PROP = {
         "level": "exploration",
-        "level_text": "Seeded exploration with a reference model as oracle: thousands (quick) to 10^5 (thorough) generated span trees (depth <= 6, fan-out <= 4; sync / async nodes, nodes rejected by a call-site `when:` or by the runtime filter, thread hand-offs through captured frames, async siblings under seeded poll interleavings, incoming ids as typed values / hex strings / integers) incoming trace id without a usable span id, non-span frames captured inside spans and handed to threads / tasks) are executed through the real #[emit::span] / emit::info! macros on a generic Runtime and a type-erased AmbientSlot over ThreadLocalCtxt, on the trace-context runtime (TraceparentCtxt, typed and as emit_traceparent::setup() builds it), on ten runtimes whose context sits behind the crate's forwarding wrappers (&C, Box, Arc, Box<dyn ErasedCtxt>, AssertInternal, Option, stacked) and on a custom list-backed Ctxt that uses the trait's default open_push (repeated keys, innermost first), and SpanCtxt::current read at every program point plus every emitted span / event are compared with an ambient-id model written from the statement. Held-on-what-was-observed over the generated trees and schedules, not a proof over all programs.",
+        "level_text": "Seeded exploration with a reference model as oracle: thousands (quick) to 10^5 (thorough) generated span trees (depth <= 6, fan-out <= 4; sync / async nodes, nodes rejected by a call-site `when:` or by the runtime filter, thread hand-offs through captured frames, async siblings under seeded poll interleavings, incoming ids as typed values / hex strings / integers) incoming trace id without a usable span id, non-span frames captured inside spans and handed to threads / tasks) are executed through the real #[emit::span] / emit::info! macros on a generic Runtime and a type-erased AmbientSlot over ThreadLocalCtxt, on the trace-context runtime (TraceparentCtxt, typed and as emit_traceparent::setup() builds it), on ten runtimes whose context sits behind the crate's forwarding wrappers (&C, Box, Arc, Box<dyn ErasedCtxt>, AssertInternal, Option, stacked) and on a custom list-backed Ctxt that uses the trait's default open_push (repeated keys, innermost first), and SpanCtxt::current read at every program point plus every emitted span / event are compared with an ambient-id model written from the statement. A directed, seeded section (2 000 quick / 40 000 thorough cases on the generic, the AmbientSlot and both trace-context runtimes) covers the `setup:` parameter of the span macros when its fn INSTALLS THE INCOMING TRACE CONTEXT (a guard that pushes and enters a frame with the caller's trace_id / span_id - typed, hex text, or Traceparent::push() - and exits it on drop): sync / async x plain / `guard:` / ok_lvl+err_lvl forms, two nested levels (the first optionally installing a second incoming context through its own `setup:`), optionally inside an enclosing span, with controls (a setup fn that installs nothing, span fns without `setup:`); judged: the span is a child of the incoming span with a fresh id, its body's ambient ids and events are the span's, nested spans are children of this span, the ambient ids revert after each level and after the call. Held-on-what-was-observed over the generated trees and schedules, not a proof over all programs.",
         "level_note": "Trusts the model in harness/mon/src/bin/c04.rs, the interpreter in harness/mon/src/shared/spantree.rs (thread-local routing of events to the tree being run) and vcommon's counting rng (never repeats, never zero). Poll interleavings are those of a seeded single-thread executor; threads are real OS threads joined before the parent continues.",
         "technique": "runtime monitoring: recursive span-tree interpreter written with the real macros + ambient-id reference model at every program point; Miri lane for the erased context frames",
         "assumptions": [
@@ -10,6 +10,7 @@ PROP = {
             "incoming ids are only placed in an otherwise empty context (top level); explicit trace ids in span props are C18's business",
             "on the trace-context runtimes every node of the tree is enabled (a span rejected by a filter unsamples its subtree there by design, which is C18's subject)",
             "text of ids on events that read pushed integer ids straight from the context is compared numerically (decimal), everything else as hex",
+            "setup-param section: async span fns whose setup guard stays entered across awaits are only polled by an executor that runs nothing else on the thread; on the trace-context runtimes a NESTED incoming context is installed through Traceparent::push() only (plain id props under an active traceparent are a child of it by design, C18)",
         ],
         "lanes": [
             native("c04"),
